@@ -17,7 +17,8 @@ C12: what "applying an estimator is pure" means for the executable models.
   back); `writesResultIntoArg` = assigns the result column-wise into the caller's frame
   (`Imputer(method="random" | "drift" | "forecaster")` and `HampelFilter` on a DataFrame: `Z[col] = …`); `replacesIndex` = `y.index = …` on
   the caller's Series (`_coerce_int_to_range_index` in the statsmodels adapters' `fit`).
-  `effectOf` is the table of the places where /repo's code is known to use one of the latter.
+  `effectOf` is the table of the places where /repo's code uses one of the latter: it is EMPTY since the
+  fix commits b0033b3 / c56874f / 6cfe0ff; `effectOfOriginal` records what it was.
 Import-free apart from the shared models.
 -/
 import SkVerif.Model.Cores
@@ -176,12 +177,18 @@ def callerAfter {V : Type} (e : Effect) (arg : ArgSnap V) (result : V) : ArgSnap
   | .writesResultIntoArg => { arg with values := result }
   | .replacesIndex => { arg with rangeIndex := true }
 
-/-- where /repo's code, as it stands, does NOT work on a copy (estimator, method, container) -/
-def effectOf (estimator method container : String) : Effect :=
-  if estimator == "HampelFilter" && (method == "transform" || method == "fit_transform") then
+/-- where /repo's code does NOT work on a copy (estimator, method, container).  The table is EMPTY:
+the three groups of sites that used to be listed here (HampelFilter.transform, Imputer(method =
+random | drift | forecaster).transform on a DataFrame, the statsmodels adapters' fit) were repaired by
+/repo commits b0033b3, c56874f, 6cfe0ff and now work on copies. -/
+def effectOf (_estimator _method _container : String) : Effect := .copies
+
+/-- the table as it stood for the ORIGINAL code (before b0033b3 / c56874f / 6cfe0ff); kept only so that
+the historical negation (`Props/C12: original_code_hampel_mutated_caller`) stays machine-checked -/
+def effectOfOriginal (estimator method container : String) : Effect :=
+  if (estimator == "HampelFilter" || estimator == "HampelFilter:bool")
+      && (method == "transform" || method == "fit_transform") then
     (if container == "Series" then .returnsArgMutated else .writesResultIntoArg)
-  else if estimator == "HampelFilter:bool" && (method == "transform" || method == "fit_transform")
-      && container == "DataFrame" then .writesResultIntoArg
   else if (estimator == "Imputer:random" || estimator == "Imputer:drift" || estimator == "Imputer:forecaster")
       && (method == "transform" || method == "fit_transform")
       && container == "DataFrame" then .writesResultIntoArg
@@ -190,8 +197,13 @@ def effectOf (estimator method container : String) : Effect :=
   else .copies
 
 /-- `HampelFilter(window_length, n_sigma, k).transform(z)` on a Series: the value returned and the
-caller's series afterwards (the same object) -/
+caller's series afterwards.  `transform` copies its input first (`Z = Z.copy()`), so `_hampel_filter`'s
+in-place writes land in the copy: the caller's series is the input. -/
 def hampelInPlace (cfg : ST.HampelCfg) (z : ST.Series) : Except ST.Err (ST.Series × ST.Series) :=
+  (ST.hampel cfg z).map (fun r => (r, z))
+
+/-- the ORIGINAL code (before b0033b3): the filter ran on the caller's object and returned it -/
+def hampelInPlaceOriginal (cfg : ST.HampelCfg) (z : ST.Series) : Except ST.Err (ST.Series × ST.Series) :=
   (ST.hampel cfg z).map (fun r => (r, r))
 
 end SkVerif.P12
